@@ -40,6 +40,25 @@ Proof. exact bs_bit_spec. Qed.
 Theorem C19_bit_len : forall v, bs_valid v -> bs_bit_len v = len (bits_of v).
 Proof. exact bs_bit_len_spec. Qed.
 
+(* the converse direction: whatever a valid value writes is accepted again and
+   decodes to that very value (in CER provided the content is within the
+   1000-octet limit; beyond it CER refuses the value's own encoding) *)
+Theorem C19_write_then_decode : forall m v, bs_valid v ->
+  (mode_eqb m Cer && (1000 <? len (bs_write v))) = false ->
+  prim_decode (bit_from_prim m) (bs_write v) = Ok v.
+Proof. exact bit_write_decode. Qed.
+
+Theorem C19_write_then_decode_cer_long : forall v, bs_valid v -> 1000 < len (bs_write v) ->
+  prim_decode (bit_from_prim Cer) (bs_write v) = CErr.
+Proof. exact bit_write_decode_cer_long. Qed.
+
+(* BitString::new yields a value exactly for valid arguments (the documented
+   assertion fires on all others), so every constructed value is valid *)
+Theorem C19_new : forall unused bits,
+  (bs_valid (unused, bits) -> bit_new unused bits = Ok (unused, bits)) /\
+  (~ bs_valid (unused, bits) -> bit_new unused bits = Panic).
+Proof. exact bit_new_spec. Qed.
+
 Example C19_ex_padding_ignored :
   bs_bit (4, [255]) 3 = true /\ bs_bit (4, [255]) 4 = false /\ bs_bit_len (4, [255]) = 4.
 Proof. repeat split. Qed.
@@ -50,3 +69,6 @@ Print Assumptions C19_skip_same.
 Print Assumptions C19_views_reencode.
 Print Assumptions C19_bit.
 Print Assumptions C19_bit_len.
+Print Assumptions C19_write_then_decode.
+Print Assumptions C19_write_then_decode_cer_long.
+Print Assumptions C19_new.
